@@ -323,3 +323,9 @@ pub fn colon_comment_paren(input: &str) -> bool {
     let t = refscan::scan(input);
     t.windows(3).any(|w| w[0].text(input) == ":" && w[1].kind == RK::LineComment && w[2].text(input) == "(")
 }
+
+/// words after which an own-line comment derails the type declaration parser (known finding
+/// comment-after-type-head); `t` is lower case, "helper for" stands for the `for` of a helper type
+pub fn is_type_head_word(t: &str) -> bool {
+    matches!(t, "class" | "record" | "interface" | "object" | "=" | "helper" | "helper for" | "sealed" | "abstract" | "packed" | "to" | "of" | "array" | "set" | "reference" | "function" | "procedure")
+}
